@@ -11,12 +11,12 @@ Date answer: `timex TAB future TAB past` | `none` | `err:Other`; range answer as
   zh.wd this|next|last Y M D secs dow
   zh.bare Y M D secs dow
   zh.sdate Y M D secs day monthRel|- yearRel|-
-  zh.ago | zh.agofix Y M D secs D|W|MON|Y|O number before after
+  zh.ago | zh.agoprefix Y M D secs D|W|MON|Y|O number before after      (prefix = the labelled pre-fix variant)
   zh.cyd | zh.cyp whole d1,d2,…  (a digit `x` = the character is no numeral)   -> int
   zh.oneword Y M D secs cps month|-
-  zh.simple Y M D secs beginDay endDay month|- relSwift isFuture year|-
+  zh.simple | zh.simpleprefix Y M D secs beginDay endDay month|- relSwift isFuture year|-
   zh.dur Y M D secs D|W|M|Y|O num hasPast hasFuture
-  zh.year len year0 | zh.y2y begin end | zh.ym year0 monthVal | zh.quarter year0 q
+  zh.year len year0 | zh.y2y begin end | zh.ym year0 monthVal | zh.quarter | zh.quarterprefix year0 q
   zh.season year0|- season                            -> timex
   zh.wom Y M D secs cardinal month year noYear
   zh.dval number unitSeconds -> nat | zh.dtimex lessThanDay numberText letter -> timex
@@ -62,19 +62,22 @@ def dispatchZhDateTime (op : String) (args : List String) : Option String :=
   | "zh.sdate", [y, m, d, s, day, mr, yr] => some (showD (specialDate (mkDT y m d s) (parseNat day) (optInt mr) (optInt yr)))
   | "zh.ago", [y, m, d, s, u, n, b, a] =>
     some (showD (agoLater (mkDT y m d s) (parseAUnit u) (parseInt n) (parseBool b) (parseBool a)))
-  | "zh.agofix", [y, m, d, s, u, n, b, a] =>
-    some (showD (agoLaterFixed (mkDT y m d s) (parseAUnit u) (parseInt n) (parseBool b) (parseBool a)))
+  | "zh.agoprefix", [y, m, d, s, u, n, b, a] =>
+    some (showD (agoLaterPreFix (mkDT y m d s) (parseAUnit u) (parseInt n) (parseBool b) (parseBool a)))
   | "zh.cyd", [w, ds] => some (toString (convertYearDate (parseInt w) (parseDigits ds)))
   | "zh.cyp", [w, ds] => some (toString (convertYearPeriod (parseInt w) (parseDigits ds)))
   | "zh.oneword", [y, m, d, s, src, mo] => some (showRes (oneWord (mkDT y m d s) (parseCps src) (optNat mo)))
   | "zh.simple", [y, m, d, s, b, e, mo, rs, fu, yr] =>
     some (showRes (simpleCases (mkDT y m d s) (parseNat b) (parseNat e) (optNat mo) (parseInt rs) (parseBool fu) (optInt yr)))
+  | "zh.simpleprefix", [y, m, d, s, b, e, mo, rs, fu, yr] =>
+    some (showRes (simpleCasesPreFix (mkDT y m d s) (parseNat b) (parseNat e) (optNat mo) (parseInt rs) (parseBool fu) (optInt yr)))
   | "zh.dur", [y, m, d, s, u, n, p, f] =>
     some (showRes (commonDuration (mkDT y m d s) (parsePUnit u) (parseInt n) (parseBool p) (parseBool f)))
   | "zh.year", [l, yr] => some (showRes (zhParseYear (parseNat l) (parseInt yr)))
   | "zh.y2y", [b, e] => some (showRes (yearToYear (parseInt b) (parseInt e)))
   | "zh.ym", [yr, mo] => some (showRes (yearAndMonth (parseInt yr) (parseNat mo)))
   | "zh.quarter", [yr, q] => some (showRes (zhQuarter (parseInt yr) (parseNat q)))
+  | "zh.quarterprefix", [yr, q] => some (showRes (zhQuarterPreFix (parseInt yr) (parseNat q)))
   | "zh.season", [yr, se] => some (toString' (zhSeasonTimex (optInt yr) (str se)))
   | "zh.wom", [y, m, d, s, c, mo, yr, ny] =>
     some (showRes (zhGetWeekOfMonth (mkDT y m d s) (parseInt c) (parseNat mo) (parseInt yr) (parseBool ny)))
